@@ -47,10 +47,10 @@ BOUNDS = {
     "dwt_depth_ho": 4,
     "slices_x": 16,
     "slices_y": 16,
-    "luma_offset": 1 << 20,
-    "luma_excursion": 1 << 20,
-    "color_diff_offset": 1 << 20,
-    "color_diff_excursion": 1 << 20,
+    "luma_offset": 1 << 40,
+    "luma_excursion": 1 << 40,
+    "color_diff_offset": 1 << 40,
+    "color_diff_excursion": 1 << 40,
     "slice_prefix_bytes": 64,
     "slice_size_scaler": 64,
     "slice_bytes_numerator": 4096,
@@ -100,16 +100,24 @@ _LEVEL_MODE = ["real"]
 
 
 def use_permissive_levels():
-    """Replace the level *value* table (LEVEL_CONSTRAINTS) in this process by a
-    single all-permitting row, so that tiny pictures can carry any level number.
+    """Replace the level *value* table (LEVEL_CONSTRAINTS) in this process by
+    one row per level that fixes the level number and permits every other value,
+    so that tiny pictures can carry any level number while a value recorded for
+    one level still conflicts with another level (as in the real table).
     LEVEL_SEQUENCE_RESTRICTIONS — the data-unit ordering patterns — stays the
     real table.  Recorded as a stub in the evidence of the checks that use it."""
     if _LEVEL_MODE[0] != "permissive":
+        from vc2_conformance.constraint_table import ValueSet
+        from vc2_data_tables import Levels
+
         keys = set()
         for row in _REAL_LEVEL_ROWS:
             keys.update(row.keys())
         del _LEVEL_CONSTRAINTS[:]
-        _LEVEL_CONSTRAINTS.append({k: _AnyValue() for k in sorted(keys)})
+        for lvl in Levels:
+            row = {k: _AnyValue() for k in sorted(keys)}
+            row["level"] = ValueSet(int(lvl))
+            _LEVEL_CONSTRAINTS.append(row)
         _LEVEL_MODE[0] = "permissive"
 
 
@@ -313,15 +321,31 @@ class DeserResult(object):
     __slots__ = ("verdict", "exc", "context", "reads", "consumed_bits", "headers")
 
 
-def run_deserialiser(data):
-    """verdict in parsed / fail / oos.  'parsed' means parsed to completion."""
+def run_deserialiser(data, reread=False):
+    """verdict in parsed / fail / oos.  'parsed' means parsed to completion.
+
+    With ``reread`` the deserialiser is driven the way the bitstream viewer
+    drives it: after every value the monitor seeks back to where the value
+    started and reads its bits again as a bit array."""
     res = DeserResult()
     f = SimFile(data)
     reader = BitstreamReader(f)
     res.context = None
     del DESER_HEADERS[:]
+    monitor = _scope_monitor
+    if reread:
+        last = [reader.tell()]
+
+        def monitor(des, target, value):
+            _scope_monitor(des, target, value)
+            this = reader.tell()
+            n = to_bit_offset(*this) - to_bit_offset(*last[0])
+            reader.seek(*last[0])
+            reader.read_bitarray(n)
+            last[0] = this
+
     try:
-        with MonitoredDeserialiser(_scope_monitor, reader) as des:
+        with MonitoredDeserialiser(monitor, reader) as des:
             bs_vc2.parse_stream(des, State())
         res.context = des.context
         res.verdict, res.exc = "parsed", None
